@@ -1,8 +1,11 @@
 (* C13 classifier.  A case = one ledger, and for each command the number of DISTINCT
    (exit status, stdout, stderr) triples seen over N fresh processes plus the parsed content of
-   the first run, in printing order.  0 Agree | 1 ModelMismatch | 2 PropertyFail. *)
+   the first run, in printing order; or one CSV import (header, configured field positions) with
+   the same count and what the first run did.  0 Agree | 1 ModelMismatch | 2 PropertyFail. *)
 From Coq Require Import List NArith ZArith Bool QArith Qcanon.
-From Okv Require Import Base.Maps Base.Dec Model.Amount Model.Book Model.Query Model.Render Run.LedgerCase.
+From Okv Require Import Base.Maps Base.Dec Model.Amount Model.Book Model.Query Model.Render
+     Model.PriceDb Model.Convert Model.CanonState Run.LedgerCase.
+From Okv Require Model.ImpConfig Model.ImpCsv Run.ImpCase.
 Import ListNotations.
 
 Definition seq := list (cid * Qc).
@@ -11,19 +14,78 @@ Inductive out_obs :=
 | OBalance (lines : list (aid * seq))
 | ORegister (lines : list (aid * seq * seq))
 | OUnbalanced (residual : seq)
+(* a failed run that names a place `--> file:line:col`: the entry that contains the line, the
+   kind of message (1 unbalanced, 2 assertion, 3 other) and the printed residual when unbalanced *)
+| OBookErr (entry : nat) (kind : N) (residual : option seq)
+(* `balance -X`: printed something and succeeded | "commodity rate V C into T at D not found" *)
+| OConvOk
+| OConvErr (c : cid) (v : Qc) (target : cid) (date : Z)
 | OOpaque.                         (* compared across runs only *)
 
-Record run_obs := { r_distinct : N; r_ok : bool; r_out : out_obs }.
-Definition R (d : N) (ok : bool) (o : out_obs) : run_obs := {| r_distinct := d; r_ok := ok; r_out := o |}.
+(* the query of a `balance -X T [--historical | --now D] [--start S] [--end E]` run, or of
+   `primitive eval --date D -X T "(v1 C1 + v2 C2 ...)"` (distinct commodities, non-zero values) *)
+Inductive xquery :=
+| XBal (target : cid) (st : strategy) (s e : option Z)
+| XEval (a : amount) (target : cid) (date : Z).
+Definition XQ (t : cid) (now : option Z) (s e : option Z) : xquery :=
+  XBal t (match now with Some d => UpToDate d | None => Historical end) s e.
+Definition XE (a : seq) (t : cid) (d : Z) : xquery := XEval a t d.
 
-Record case := { c_entries : list entry; c_runs : list run_obs }.
-Definition C (es : list entry) (rs : list run_obs) : case := {| c_entries := es; c_runs := rs |}.
+Record run_obs := { r_distinct : N; r_ok : bool; r_query : option xquery; r_out : out_obs }.
+Definition R (d : N) (ok : bool) (o : out_obs) : run_obs :=
+  {| r_distinct := d; r_ok := ok; r_query := None; r_out := o |}.
+Definition RX (d : N) (ok : bool) (q : xquery) (o : out_obs) : run_obs :=
+  {| r_distinct := d; r_ok := ok; r_query := Some q; r_out := o |}.
+
+(* ---- CSV import: FieldMap::try_new on the header the statement really has ---- *)
+(* a configured field: a header label, or a template that does not parse *)
+Inductive cpos := CLabel (l : list N) | CBadTemplate.
+Definition LBL (l : list N) : cpos := CLabel l.
+Definition BADT : cpos := CBadTemplate.
+(* status: 0 transactions printed, exit 0 | 1 "specified labels not found" | 3 an invalid
+   template is reported | 2 any other failure;
+   picks: for a field whose cells identify their column, the column the printed values came from;
+   bad: the field whose template the message quotes *)
+Record imp_obs := { i_distinct : N; i_status : N; i_picks : list (N * nat); i_bad : option N }.
+Definition IO (d st : N) (picks : list (N * nat)) (bad : option N) : imp_obs :=
+  {| i_distinct := d; i_status := st; i_picks := picks; i_bad := bad |}.
+
+Inductive case :=
+| C (es : list entry) (rs : list run_obs)
+| CI (header : list (list N)) (fields : list (N * cpos)) (o : imp_obs).
 
 Fixpoint seq_eqb (a b : seq) : bool :=
   match a, b with
   | [], [] => true
   | (c1, v1) :: r1, (c2, v2) :: r2 => (c1 =? c2)%N && qc_eqb v1 v2 && seq_eqb r1 r2
   | _, _ => false
+  end.
+
+Definition bk_kind (e : bk_err) : N :=
+  match e with UnbalancedPostings _ => 1 | BalanceAssertionFailure _ _ _ => 2 | _ => 3 end%N.
+
+Definition book_err_agrees (k : nat) (kind : N) (res : option seq) (m : outcome bstate * nat) : bool :=
+  match m with
+  | (Err e, k') =>
+      Nat.eqb k k' && (kind =? bk_kind e)%N
+      && match res, render_unbalanced e with
+         | Some sq, Some sq' => seq_eqb sq sq'
+         | None, None => true
+         | _, _ => false
+         end
+  | _ => false
+  end.
+
+(* the model of Ledger::balance with a conversion, every map walked in key order *)
+Definition forget {A} (x : conv_outcome A) : conv_outcome unit :=
+  match x with COk _ => COk tt | CErr e => CErr e | COutOfFuel => COutOfFuel end.
+Definition model_query (s : bstate) (q : xquery) : conv_outcome unit :=
+  let recs := repository (s_events s) [] in
+  match q with
+  | XBal t st b e =>
+      forget (balance_query_keyed run_fuel choose_max recs s
+                                  (Some {| cv_strategy := st; cv_target := t |}) b e)
+  | XEval a t d => forget (eval_exchange run_fuel choose_max recs (sort_keys a) (Some t) d)
   end.
 
 Definition agrees (m : outcome bstate * nat) (r : run_obs) : bool :=
@@ -37,12 +99,66 @@ Definition agrees (m : outcome bstate * nat) (r : run_obs) : bool :=
                          ls (render_register (all_postings s))
   | OUnbalanced sq, (Err e, _) =>
       negb (r_ok r) && match render_unbalanced e with Some sq' => seq_eqb sq sq' | None => false end
+  | OBookErr k kind res, _ => negb (r_ok r) && book_err_agrees k kind res m
+  | OConvOk, (Ok s, _) =>
+      r_ok r && match r_query r with
+                | Some q => match model_query s q with COk _ => true | _ => false end
+                | None => false
+                end
+  | OConvErr c v t d, (Ok s, _) =>
+      negb (r_ok r) && match r_query r with
+                       | Some q => match model_query s q with
+                                   | CErr (RateNotFound c' v' t' d') =>
+                                       (c =? c')%N && qc_eqb v v' && (t =? t')%N && (d =? d')%Z
+                                   | _ => false
+                                   end
+                       | None => false
+                       end
   | _, _ => false
   end.
 
+(* ---- import ---- *)
+(* FieldMap::try_new: labels that are not in the header are reported first; then the fields are
+   visited in FieldKey declaration order (4bf0224) and the first template that does not parse
+   is reported; then Model/ImpCsv.v fieldmap_new (exact label match, last column wins) *)
+Definition label_fields (fields : list (N * cpos)) : list (ImpConfig.field_key * ImpConfig.field_pos) :=
+  flat_map (fun kp => match snd kp with
+                      | CLabel l => [(ImpCase.FK (fst kp), ImpConfig.PLabel l)]
+                      | CBadTemplate => []
+                      end) fields.
+Definition first_bad (fields : list (N * cpos)) : option N :=
+  fold_left (fun acc kp => match snd kp with
+                           | CBadTemplate => match acc with
+                                             | Some k => Some (N.min k (fst kp))
+                                             | None => Some (fst kp)
+                                             end
+                           | _ => acc
+                           end) fields None.
+
+Definition imp_agrees (header : list (list N)) (fields : list (N * cpos)) (o : imp_obs) : bool :=
+  let m := ImpCsv.fieldmap_new (label_fields fields) header in
+  match m, first_bad fields with
+  | ImpCsv.IErr ImpCsv.ELabelsNotFound, _ => (i_status o =? 1)%N
+  | ImpCsv.IPanic, _ => false
+  | _, Some k => (i_status o =? 3)%N && match i_bad o with Some k' => (k =? k')%N | None => false end
+  | ImpCsv.IErr _, None => (i_status o =? 2)%N
+  | ImpCsv.IOk fm, None =>
+      (i_status o =? 0)%N
+      && forallb (fun kc => match ImpCsv.fget (ImpCase.FK (fst kc)) (ImpCsv.fm_all fm) with
+                            | Some (ImpCsv.ColumnIndex i) => Nat.eqb i (snd kc)
+                            | _ => false
+                            end) (i_picks o)
+  end.
+
 Definition classify (c : case) : N :=
-  if negb (forallb (fun r => (r_distinct r =? 1)%N) (c_runs c)) then 2%N
-  else let m := process (c_entries c) in
-       if forallb (agrees m) (c_runs c) then 0%N else 1%N.
+  match c with
+  | C es rs =>
+      if negb (forallb (fun r => (r_distinct r =? 1)%N) rs) then 2%N
+      else let m := process es in
+           if forallb (agrees m) rs then 0%N else 1%N
+  | CI header fields o =>
+      if negb (i_distinct o =? 1)%N then 2%N
+      else if imp_agrees header fields o then 0%N else 1%N
+  end.
 
 Definition verdicts (cs : list case) : list N := map classify cs.
